@@ -281,8 +281,8 @@ Proof.
     - apply KEEP. eapply ext_trans; eauto.
     - unfold call_post. eapply os_read_hang; eauto. }
   destruct (ty =? COP_MSG_FFI_ERROR); [|apply KEEP; exact X4].
-  cbv zeta. destruct (N.min l 255 =? 0); [apply KEEP; exact X4|].
-  pose proof (os_read_ext (LPay j) (N.min l 255) w4) as R2. destruct (os_read (LPay j) (N.min l 255) w4) as [p w5|w5|w5] eqn:ER2.
+  cbv zeta. destruct (N.min l (VM_EXT_ERR_SIZE - 1) =? 0); [apply KEEP; exact X4|].
+  pose proof (os_read_ext (LPay j) (N.min l (VM_EXT_ERR_SIZE - 1)) w4) as R2. destruct (os_read (LPay j) (N.min l (VM_EXT_ERR_SIZE - 1)) w4) as [p w5|w5|w5] eqn:ER2.
   - apply KEEP. eapply ext_trans; eauto.
   - apply KEEP. eapply ext_trans; eauto.
   - unfold call_post. eapply os_read_hang; eauto.
@@ -457,3 +457,79 @@ Theorem hostile_replies_contained :
       [TAG_ARRAY; 1; 2; 0; 0; 0; TAG_VOID];                   (* count larger than what follows *)
       flat_map (fun _ => [TAG_ARRAY; 1; 1; 0; 0; 0]) (repeat tt 300) ++ [TAG_VOID] ] = true.   (* 300 nested arrays *)
 Proof. vm_compute. reflexivity. Qed.
+
+(* ---------- the text of an FFI_ERROR reply is data ----------
+   State right after a successful start: one live child whose script delivers, while the VM waits for the reply to call j,
+   a well-framed FFI_ERROR carrying an ARBITRARY byte string p. *)
+Definition err_child (j : N) (p : list byte) : child :=
+  mkChild [(LHdr j, [ADeliver (frame COP_MSG_FFI_ERROR p)])] true true false false [].
+Definition err_world (j : N) (p : list byte) (ign : bool) : world := mkWorld (Some (err_child j p)) [] [] ign.
+Definition vm_started : vmst := mkVm true true true.
+
+Lemma label_eqb_refl l : label_eqb l l = true.
+Proof. destruct l; simpl; auto; apply N.eqb_refl. Qed.
+
+Lemma firstn_min_len {A} (p : list A) k : firstn (N.to_nat (N.min (len p) k)) p = firstn (N.to_nat k) p.
+Proof.
+  unfold len. destruct (N.le_gt_cases (N.of_nat (length p)) k) as [H|H].
+  - rewrite N.min_l by exact H. rewrite Nat2N.id, firstn_all. symmetry. apply firstn_all2. lia.
+  - rewrite N.min_r by lia. reflexivity.
+Qed.
+
+Definition err_world_buf (j : N) (p buf : list byte) (ign : bool) : world :=
+  mkWorld (Some (mkChild [(LHdr j, [ADeliver (frame COP_MSG_FFI_ERROR p)])] true true false false buf)) [] [] ign.
+
+Lemma err_alive j p ign : cop_is_alive j vm_started (err_world j p ign) = (true, vm_started, err_world j p ign).
+Proof. reflexivity. Qed.
+Lemma err_write j p ign : os_write (LReq j) (err_world j p ign) = WOk (err_world j p ign).
+Proof. reflexivity. Qed.
+Lemma err_read_hdr j p ign : len p <= COP_MAX_PAYLOAD ->
+  exists h, os_read (LHdr j) 8 (err_world j p ign) = RGot h (err_world_buf j p p ign) /\
+            parse_header h = Some (COP_MSG_FFI_ERROR, len p).
+Proof.
+  intros Hl.
+  assert (L4 : length (le_bytes 4 (len p)) = 4%nat) by apply le_bytes_length.
+  destruct (le_bytes 4 (len p)) as [|l0 [|l1 [|l2 [|l3 [|? ?]]]]] eqn:E; try discriminate L4.
+  assert (OL : of_le [l0; l1; l2; l3] = len p).
+  { rewrite <- E. apply of_le_le_bytes. change (256 ^ N.of_nat 4) with 4294967296. unfold COP_MAX_PAYLOAD in Hl. lia. }
+  exists [COP_PROTO_VERSION; COP_MSG_FFI_ERROR; 0; 0; l0; l1; l2; l3]. split.
+  - unfold os_read, sync, err_world, err_child. cbn [cur c_script lookup_label label_eqb]. rewrite N.eqb_refl.
+    cbn [fold_left apply_action c_out c_exited andb negb c_buf app c_script c_in c_reaped set_cur cur detached future sigign].
+    unfold frame. rewrite E. cbn [app].
+    match goal with |- context [8 <=? ?x] =>
+      replace (8 <=? x) with true by (symmetry; apply N.leb_le; unfold len; cbn [length]; lia) end.
+    change (N.to_nat 8) with 8%nat. cbn [firstn skipn].
+    unfold err_world_buf, set_cur, frame. cbn [cur detached future sigign c_script c_in c_out c_exited c_reaped app].
+    rewrite E. reflexivity.
+  - cbn [parse_header]. rewrite N.eqb_refl. cbn [negb]. rewrite OL.
+    replace (COP_MAX_PAYLOAD <? len p) with false by (symmetry; apply N.ltb_ge; exact Hl). reflexivity.
+Qed.
+Lemma err_read_pay j p ign n : n <= len p ->
+  exists w', os_read (LPay j) n (err_world_buf j p p ign) = RGot (firstn (N.to_nat n) p) w'.
+Proof.
+  intros H. unfold os_read, sync, err_world_buf. cbn [cur c_script lookup_label label_eqb fold_left set_cur c_buf].
+  replace (n <=? len p) with true by (symmetry; apply N.leb_le; exact H). eexists. reflexivity.
+Qed.
+
+Theorem call_error_text_verbatim : forall dec j p ign,
+  len p <= COP_MAX_PAYLOAD ->
+  exists w', call_cop dec j (ReqOk []) vm_started (err_world j p ign)
+             = Go (CErr (EMsg (firstn (N.to_nat (VM_EXT_ERR_SIZE - 1)) p))) vm_started w'.
+Proof.
+  intros dec j p ign Hl. unfold call_cop. rewrite err_alive. cbv iota beta. rewrite err_write.
+  destruct (err_read_hdr j p ign Hl) as (h & RH & PH). rewrite RH, PH.
+  change (COP_MSG_FFI_ERROR =? COP_MSG_FFI_RESULT) with false. rewrite N.eqb_refl. cbv zeta iota.
+  destruct (N.eqb_spec (N.min (len p) (VM_EXT_ERR_SIZE - 1)) 0) as [Z|NZ].
+  - assert (P0 : p = []). { unfold len in Z. destruct p; [reflexivity|]. cbn [length] in Z. unfold VM_EXT_ERR_SIZE in Z. lia. }
+    subst p. eexists. reflexivity.
+  - destruct (err_read_pay j p ign (N.min (len p) (VM_EXT_ERR_SIZE - 1)) (N.le_min_l _ _)) as (w' & RP).
+    rewrite RP. exists w'. rewrite firstn_min_len. reflexivity.
+Qed.
+
+(* ... and what reaches stderr is the fixed prefix followed by that text as a C string, cut to the buffer: no byte of p is
+   interpreted (no printf directive, escape or keyword in p can change anything but the bytes echoed) *)
+Theorem error_report_is_data : forall p,
+  stderr_report (EMsg (firstn (N.to_nat (VM_EXT_ERR_SIZE - 1)) p)) =
+  Some (runtime_error_line ++ [32; 32] ++
+        firstn (N.to_nat (VM_ERROR_MSG_SIZE - 1)) (VM_FFI_ERR_PREFIX ++ cstr (firstn (N.to_nat (VM_EXT_ERR_SIZE - 1)) p)) ++ [10]).
+Proof. reflexivity. Qed.
